@@ -183,6 +183,29 @@ def correspondence(ctx, model_available=True):
         res["distribution"]["stage_runs"] += 1
         if bad:
             res["spec_failures"].append({"what": "accepted program, then %s" % bad, "program": text, "mode": mode})
+    # every operand position fed through a named constant holding a boundary value or the signed spelling of a word: what
+    # the checker lets through must survive substitution and the later stages (seed C08g)
+    for v in ["-7931", "-24285", "-1", "-32768", "-32769", "65535", "65536", "-8698", "0xE105", "255", "256", "-128", "-129", "64", "65", "0"]:
+        for tmpl in ["OPCODE(%s)", "SET(R1, %s)", "SETLO(R1, %s)", "SETHI(R1, %s)", "INC(R1, %s)", "DEC(R1, %s)", "LOAD(R1, %s, R2)",
+                     "FON(%s)", "FSET4(%s)", "BRR(%s)", "SETRF(R2, %s)", "CMP(R1, R2)\nOPCODE(%s)"]:
+            text = "CONSTANT(K, %s)\nCONSTANT(L, K)\n%s\nHALT()\n" % (v, tmpl % rng.choice(["K", "L"]))
+            mode = rng.choice(["", "assemble", "preprocess", "debug"])
+            cfg = {"mode": mode, "allow_interrupts": mode in ("assemble", "preprocess"), "no_debug_ops": False, "data_start": 0xC001}
+            ops, pm = pc.real_parse(text, cfg)
+            res["cases"] += 1
+            if ops is None or pm.get("errors"):
+                continue
+            r = pc.real_check(ops, cfg)
+            if "raise" in r:
+                res["spec_failures"].append({"what": "check raised %s" % r["raise"], "program": text, "mode": mode})
+                continue
+            if r["errors"]:
+                res["distribution"]["rejected"] += 1
+                continue
+            res["distribution"]["accepted"] += 1
+            bad = field_fit(r) or label_offsets(r, ops) or (later_stages(text, mode, False) if mode != "debug" else None)
+            if bad:
+                res["spec_failures"].append({"what": "accepted in mode %r, then %s" % (mode, bad), "program": text})
     # a program longer than the address space: labels beyond 65535 cannot be loaded by SETLO/SETHI
     # ... and programs that fill the address space exactly, or miss by one: the label after the last instruction is
     # loaded by SET (2 instructions) and called (3 instructions) at the front (seed C07c: a label of value 0x10000
